@@ -606,14 +606,29 @@ func probesFor(o geojson.Object) []geojson.Object {
 	if math.IsNaN(r.Min.X+r.Min.Y+r.Max.X+r.Max.Y) || math.IsInf(r.Min.X+r.Min.Y+r.Max.X+r.Max.Y, 0) {
 		return nil // C05/C08 speak of finite coordinates
 	}
-	return []geojson.Object{
+	var grid []geojson.Object
+	if o.NumPoints() >= 32 && r.Min.X < r.Max.X && r.Min.Y < r.Max.Y {
+		// the split coordinates of a segment quadtree over this rectangle, three levels deep
+		w, h := r.Max.X-r.Min.X, r.Max.Y-r.Min.Y
+		for i := 0; i <= 8; i++ {
+			for j := 0; j <= 8; j++ {
+				grid = append(grid, geojson.NewPoint(geometry.Point{X: r.Min.X + w*float64(i)/8, Y: r.Min.Y + h*float64(j)/8}))
+			}
+		}
+		for _, q := range [][4]float64{{0, 0, 4, 4}, {0, 4, 4, 8}, {4, 0, 8, 4}, {2, 2, 4, 4}, {4, 4, 6, 6}, {0, 0, 2, 8}, {0, 3, 8, 4}} {
+			grid = append(grid, geojson.NewRect(geometry.Rect{
+				Min: geometry.Point{X: r.Min.X + w*q[0]/8, Y: r.Min.Y + h*q[1]/8},
+				Max: geometry.Point{X: r.Min.X + w*q[2]/8, Y: r.Min.Y + h*q[3]/8}}))
+		}
+	}
+	return append(grid,
 		geojson.NewPoint(c),
 		geojson.NewPoint(r.Min),
 		geojson.NewRect(r),
 		geojson.NewRect(geometry.Rect{Min: c, Max: r.Max}),
 		geojson.NewLineString(geometry.NewLine([]geometry.Point{r.Min, r.Max}, nil)),
 		geojson.NewPolygon(geometry.NewPoly([]geometry.Point{r.Min, {X: r.Max.X, Y: r.Min.Y}, r.Max, r.Min}, nil, nil)),
-	}
+	)
 }
 
 // ---- C06: the output carries the same information as the input ----
